@@ -164,7 +164,7 @@ def check_roundtrip(ctx, case):
 
 
 def part_roundtrip(ctx):
-    n = 250 if ctx.tier == "quick" else 8000
+    n = 800 if ctx.tier == "quick" else 8000
     hyp_run(ctx, CASE, lambda c: check_roundtrip(ctx, c), n, name="roundtrip")
 
 
@@ -209,7 +209,7 @@ def check_negative(ctx, case):
 
 
 def part_negative(ctx):
-    n = 120 if ctx.tier == "quick" else 3000
+    n = 400 if ctx.tier == "quick" else 3000
     hyp_run(ctx, NEG, lambda c: check_negative(ctx, c), n, name="negative")
 
 
@@ -326,7 +326,7 @@ def check_command(ctx, case):
 
 
 def part_command(ctx):
-    n = 120 if ctx.tier == "quick" else 3000
+    n = 400 if ctx.tier == "quick" else 3000
     hyp_run(ctx, CMD, lambda c: check_command(ctx, c), n, name="command")
 
 
